@@ -7,8 +7,8 @@ package misc
 //	               #IF matches the hop if IF equals the inbound or the outbound interface
 //	sequence       hop | s? | s+ | s* | s|s | s s | (s)      regular-language meaning over the hop list of a path
 //	hop list       first AS (0,out), middle ASes (in,out), last AS (in,0)
-//	ACL            first entry matching a hop decides; a path is allowed iff every hop is allowed (only used for
-//	               predicates without interfaces, where "hop" and "interface" granularity coincide)
+//	ACL            first matching entry decides; a path is allowed iff every hop / interface is allowed (two readings of
+//	               the unit, see below)
 //	policy         ACL and sequence, then the highest-weight option group that keeps any path (same weight: union)
 
 import (
@@ -278,23 +278,125 @@ func c47Trees(leaves []*c47Pred, maxSize int) [][]*c47Node {
 	return bySize
 }
 
-// ---- ACL / policy reference (predicates without interfaces) ----
+// ---- ACL / policy reference ----
+//
+// The statement fixes what a hop predicate means for a HOP (ISD-AS#IF: either direction; ISD-AS#IN,OUT positional, 0
+// wildcard) and PathPolicy.md says "the first matched entry wins" and "for a path to be allowed, every hop of the path must
+// be allowed". What it leaves open is the unit the entries are applied to: PathPolicy.md describes ACLs both in terms of
+// hops ("if a deny entry matches any hop") and of interfaces ("allowing all interfaces in ASes ...", "if an interface is
+// denied by the first entry but allowed by the second entry it is still denied"). Both readings are modelled:
+//
+//	byHop        an entry is looked up once per hop (ISD-AS, in, out) with the hop predicate semantics of the statement
+//	byInterface  an entry is looked up once per traversed interface (ISD-AS, id, direction): #IF matches the interface with
+//	             that id in either direction, #IN,OUT matches an inbound interface by IN and an outbound one by OUT
+//
+// For predicates without interfaces the readings coincide. A filter must reproduce one of the two readings on the
+// whole input list; where they coincide the verdict is exact.
+
+type c47Reading int
+
+const (
+	byHop c47Reading = iota
+	byInterface
+)
+
+func (r c47Reading) String() string { return [...]string{"per-hop", "per-interface"}[r] }
+
+// matchesIface: does the predicate select this single traversed interface?
+func (p *c47Pred) matchesIface(isd, as, id uint64, inbound bool) bool {
+	if p.isd != 0 && p.isd != isd {
+		return false
+	}
+	if p.hasAS && p.as != 0 && p.as != as {
+		return false
+	}
+	switch p.nIf {
+	case 1:
+		return p.if1 == 0 || p.if1 == id
+	case 2:
+		if inbound {
+			return p.if1 == 0 || p.if1 == id
+		}
+		return p.if2 == 0 || p.if2 == id
+	}
+	return true
+}
+
+// meaning: canonical description of what the predicate selects (used for text round trips): forms that select the same
+// hops and interfaces under both readings get the same string.
+func (p *c47Pred) meaning() string {
+	s := strconv.FormatUint(p.isd, 10) + "-" + strconv.FormatUint(p.as, 10)
+	switch {
+	case p.nIf == 1 && p.if1 != 0:
+		return s + " any-direction " + strconv.FormatUint(p.if1, 10)
+	case p.nIf == 2 && (p.if1 != 0 || p.if2 != 0):
+		return s + " in " + strconv.FormatUint(p.if1, 10) + " out " + strconv.FormatUint(p.if2, 10)
+	}
+	return s + " any"
+}
+
+// c47ParsePredText: reference reading of a printed hop predicate "ISD[-AS[#IF[,IF]]]".
+func c47ParsePredText(s string) (*c47Pred, bool) {
+	defer func() { recover() }()
+	isdText, rest, hasAS := strings.Cut(s, "-")
+	isd, err := strconv.ParseUint(isdText, 10, 16)
+	if err != nil {
+		return nil, false
+	}
+	if !hasAS {
+		return mkPred(isd, ""), true
+	}
+	asText, ifText, hasIf := strings.Cut(rest, "#")
+	var ifs []uint64
+	if hasIf {
+		for _, f := range strings.Split(ifText, ",") {
+			v, err := strconv.ParseUint(f, 10, 16)
+			if err != nil {
+				return nil, false
+			}
+			ifs = append(ifs, v)
+		}
+		if len(ifs) > 2 {
+			return nil, false
+		}
+	}
+	var p *c47Pred
+	func() {
+		defer func() {
+			if recover() != nil {
+				p = nil
+			}
+		}()
+		p = mkPred(isd, asText, ifs...)
+	}()
+	return p, p != nil
+}
 
 type c47ACLEntry struct {
 	allow bool
 	pred  *c47Pred // nil: matches everything
 }
 
-func c47ACLAccepts(entries []c47ACLEntry, path []c47Hop) bool {
-	for _, h := range path {
-		allowed := false
+func c47ACLAccepts(entries []c47ACLEntry, path []c47Hop, reading c47Reading) bool {
+	decide := func(match func(p *c47Pred) bool) bool {
 		for _, e := range entries {
-			if e.pred == nil || e.pred.matches(h) {
-				allowed = e.allow
-				break
+			if e.pred == nil || match(e.pred) {
+				return e.allow
 			}
 		}
-		if !allowed {
+		return false
+	}
+	for i, h := range path {
+		if reading == byHop {
+			if !decide(func(p *c47Pred) bool { return p.matches(h) }) {
+				return false
+			}
+			continue
+		}
+		if i > 0 && !decide(func(p *c47Pred) bool { return p.matchesIface(h.isd, h.as, h.in, true) }) {
+			return false
+		}
+		if i < len(path)-1 && !decide(func(p *c47Pred) bool { return p.matchesIface(h.isd, h.as, h.out, false) }) {
 			return false
 		}
 	}
@@ -307,8 +409,8 @@ type c47Filter struct {
 	seq *c47Node
 }
 
-func (f c47Filter) accepts(path []c47Hop) bool {
-	if f.acl != nil && !c47ACLAccepts(f.acl, path) {
+func (f c47Filter) accepts(path []c47Hop, reading c47Reading) bool {
+	if f.acl != nil && !c47ACLAccepts(f.acl, path, reading) {
 		return false
 	}
 	if f.seq != nil && !f.seq.accepts(path) {
@@ -323,10 +425,10 @@ type c47Option struct {
 }
 
 // c47PolicyFilter: indices of the kept paths, in input order.
-func c47PolicyFilter(top c47Filter, options []c47Option, paths [][]c47Hop) []int {
+func c47PolicyFilter(top c47Filter, options []c47Option, paths [][]c47Hop, reading c47Reading) []int {
 	var kept []int
 	for i, p := range paths {
-		if top.accepts(p) {
+		if top.accepts(p, reading) {
 			kept = append(kept, i)
 		}
 	}
@@ -353,7 +455,7 @@ func c47PolicyFilter(top c47Filter, options []c47Option, paths [][]c47Hop) []int
 		var out []int
 		for _, i := range kept {
 			for _, o := range options {
-				if o.weight == best && o.f.accepts(paths[i]) {
+				if o.weight == best && o.f.accepts(paths[i], reading) {
 					out = append(out, i)
 					break
 				}
